@@ -4,6 +4,7 @@ import (
 	"bytes"
 	"fmt"
 	"io"
+	"math/rand"
 	"sync"
 
 	"github.com/ulikunitz/lz"
@@ -24,6 +25,16 @@ type C13Case struct {
 	H2   []POp   `json:"h2,omitempty"`
 	Conc []PCase `json:"conc,omitempty"`
 	Reps int     `json:"reps,omitempty"`
+	// Lives (kind manyresets): histories that each start with a Reset, run
+	// one after the other on the parser that has executed H1; every one of
+	// them is compared with the same history on a new parser.
+	Lives []C13Life `json:"lives,omitempty"`
+}
+
+// C13Life is one life of a parser that is reset again and again.
+type C13Life struct {
+	S   []byte `json:"s"`
+	Ops []POp  `json:"ops"`
 }
 
 type c13prop struct{ base }
@@ -52,7 +63,11 @@ func (p *c13prop) Plan(tier string, seed int64) []core.Segment {
 		segs = append(segs, core.Segment{Kind: "wrapreset:" + t, N: 600 * m})
 		if t != "GSAP" && t != "OSAP" {
 			segs = append(segs, core.Segment{Kind: "ntlreset:" + t, N: 1500 * m})
+			// hash tables of 2^19 .. 2^22 entries
+			segs = append(segs, core.Segment{Kind: "bighash:" + t, N: 8 * tierScale(tier, 6), Chunk: 2})
 		}
+		// hundreds of Resets of one parser object
+		segs = append(segs, core.Segment{Kind: "manyresets:" + t, N: 6 * tierScale(tier, 6), Chunk: 2})
 	}
 	reps := int64(1)
 	if tier == "thorough" {
@@ -159,6 +174,9 @@ func (p *c13prop) Gen(kind string, idx int64, seed int64, tier string) core.Case
 		}
 		if class == "reset" {
 			cc.H1 = GenOps(r, 10+r.Intn(60), w)
+		}
+		if class == "bighash" || class == "manyresets" {
+			return core.MkCase(p.id, kind, idx, seed, tier, genC13Scale(r, class, typ, c))
 		}
 		if class == "ntlreset" {
 			// the last Parse of the previous life uses NoTrailingLiterals:
@@ -375,6 +393,117 @@ func (p *c13prop) Gen(kind string, idx int64, seed int64, tier string) core.Case
 	return core.MkCase(p.id, kind, idx, seed, tier, cc)
 }
 
+// genC13Scale builds the cases whose point is a size or a count: hash tables
+// of 2^19 to 2^22 entries (the defaults are 2^16 to 2^18), and 256 and more
+// Resets of one parser object. The old life parses a stream A; the new life
+// gets random bytes with hundreds of short pieces of A planted behind the
+// positions they have in A, so that entries left over from A would verify.
+func genC13Scale(r *rand.Rand, class, typ string, c gen.Cfg) C13Case {
+	var cc C13Case
+	nA := 256 << 10
+	if class == "manyresets" {
+		nA = 64 << 10
+	}
+	c.BufferSize = 2*nA + r.Intn(1000)
+	c.WindowSize = c.BufferSize
+	c.ShrinkSize = r.Intn(nA)
+	c.BlockSize = []int{nA, 32 << 10, 1 << 16, 100000}[r.Intn(4)]
+	il := 4 + r.Intn(3)
+	switch typ {
+	case "HP", "BHP":
+		c.InputLen = il
+		c.HashBits = 16
+		if class == "bighash" {
+			c.HashBits = 19 + r.Intn(4)
+		}
+	case "BUP":
+		c.InputLen = il
+		c.HashBits, c.BucketSize = 16, 8
+		if class == "bighash" {
+			c.HashBits, c.BucketSize = 19+r.Intn(2), 1+r.Intn(4)
+		}
+	case "DHP", "BDHP":
+		c.InputLen1 = 3 + r.Intn(3)
+		c.InputLen2 = c.InputLen1 + 1 + r.Intn(8-c.InputLen1)
+		c.HashBits1, c.HashBits2 = 14+r.Intn(4), 16+r.Intn(3)
+		if class == "bighash" {
+			c.HashBits1, c.HashBits2 = 17+r.Intn(5), 19+r.Intn(4)
+			if r.Intn(2) == 0 {
+				c.HashBits1 = 19 + r.Intn(3)
+			}
+		}
+	default:
+		c.MinMatchLen, c.MaxMatchLen = 3, 273
+		c.Cost = ""
+	}
+	cc.Cfg = c
+	A := gen.Family(r, []string{"rand256", "rand256", "rand16", "text"}[r.Intn(4)], nA, c.Hint())
+	cc.S1 = A
+	cc.H1 = []POp{{K: "write", A: 0, B: nA}}
+	for i := 0; i < nA/c.BlockSize+1; i++ {
+		cc.H1 = append(cc.H1, POp{K: "parse"})
+	}
+	// planted pieces: (a) a piece of A behind the position it has in A; (b)
+	// the new data shares three bytes with A at a position p (the fourth
+	// differs) and repeats the hashed bytes of A at p later: an entry left
+	// over from A has the right value and verifies for three bytes, a parser
+	// that only knows the new data has no such entry
+	ils := []int{c.InputLen, c.InputLen1, c.InputLen2, 4, 8}
+	plant := func(n, pieces int) []byte {
+		B := gen.Family(r, "rand256", n, c.Hint())
+		for k := 0; k < pieces; k++ {
+			l := 3 + r.Intn(6)
+			i := l + r.Intn(n-2*l)
+			j := r.Intn(i)
+			if k%2 == 0 {
+				copy(B[i:i+l], A[j:j+l])
+				continue
+			}
+			il := ils[r.Intn(len(ils))]
+			if il < 4 || i+il > n || j+il > len(A) || i-j < 4 {
+				continue
+			}
+			copy(B[j:j+3], A[j:j+3])
+			B[j+3] = A[j+3] ^ byte(1+r.Intn(255))
+			copy(B[i:i+il], A[j:j+il])
+		}
+		return B
+	}
+	if class == "manyresets" {
+		// most lives parse a few bytes; the lives around the counts at which
+		// a counter of 7 or 8 bits wraps (and two drawn ones) parse 16 KiB
+		// with planted pieces of A
+		k := 258 + r.Intn(40)
+		big := map[int]bool{1: true, 128: true, 255: true, 256: true, 257: true, 2 + r.Intn(k-2): true, 2 + r.Intn(k-2): true}
+		for i := 1; i <= k; i++ {
+			reset := POp{K: "reset", A: 0}
+			if r.Intn(8) == 0 {
+				reset = POp{K: "reset", A: 1 + r.Intn(2), B: r.Intn(16), C: r.Intn(20)}
+			}
+			var l C13Life
+			if big[i] {
+				l.S = plant(16<<10, 400)
+				l.Ops = []POp{reset, {K: "write", A: 0, B: len(l.S)}, {K: "parse"}, {K: "parse", A: r.Intn(2)}}
+			} else {
+				l.S = gen.Family(r, "rand256", 4+r.Intn(12), c.Hint())
+				l.Ops = []POp{reset, {K: "write", A: 0, B: len(l.S)}, {K: "parse"}}
+			}
+			cc.Lives = append(cc.Lives, l)
+		}
+		return cc
+	}
+	cc.S2 = plant(nA, 1500)
+	reset := POp{K: "reset", A: 0}
+	if r.Intn(3) == 0 {
+		reset = POp{K: "reset", A: 1 + r.Intn(2), B: r.Intn(1000), C: r.Intn(20)}
+	}
+	cc.H2 = []POp{reset, {K: "write", A: 0, B: nA}}
+	for i := 0; i < nA/c.BlockSize+2; i++ {
+		cc.H2 = append(cc.H2, POp{K: "parse", A: []int{0, 0, 1}[r.Intn(3)]})
+	}
+	return cc
+}
+
 // recObs records every observable result of a history.
 type recObs struct {
 	log []string
@@ -566,9 +695,51 @@ func (p *c13prop) Run(c *core.Case, st *core.Stats) []core.Violation {
 		}
 		return nil
 	}
+	if class == "manyresets" {
+		var used *PState
+		var nerr error
+		var bad []core.Violation
+		pv := call(func() {
+			used, nerr = NewParserFor(cc.Cfg)
+			if nerr != nil {
+				return
+			}
+			used.Poison = 0xa5
+			RunHistory(used, &PCase{Cfg: cc.Cfg, Stream: cc.S1, Ops: cc.H1}, &recObs{})
+			for i := range cc.Lives {
+				l := &PCase{Cfg: cc.Cfg, Stream: cc.Lives[i].S, Ops: cc.Lives[i].Ops}
+				a := &recObs{}
+				used.cursor = 0
+				RunHistory(used, l, a)
+				b, _ := runRecorded(cc.Cfg, nil, l, 0)
+				st.Inc("lives_compared")
+				if len(cc.Lives[i].S) > 1000 {
+					st.Inc("lives_compared_with_planted_old_data")
+				}
+				if at, why := diffLogs(a.log, b); at >= 0 {
+					bad = []core.Violation{core.V(c, "reset-differs-from-fresh", "%s cfg=%+v: after Reset number %d of one parser object the parser (A) behaves differently from a new parser (B); %s", cc.Cfg.Type, cc.Cfg, i+1, why)}
+					return
+				}
+			}
+		})
+		if pv != nil {
+			return []core.Violation{core.V(c, "panic", "%s cfg=%+v: %s", cc.Cfg.Type, cc.Cfg, fmtPanic(pv))}
+		}
+		if nerr != nil {
+			st.Inc("config_rejected")
+			return nil
+		}
+		if bad != nil {
+			return bad
+		}
+		st.Inc("pairs_compared")
+		st.Inc("parsers_reset_more_than_256_times")
+		st.NonTrivial(c)
+		return nil
+	}
 	main := &PCase{Cfg: cc.Cfg, Stream: cc.S2, Ops: cc.H2}
 	var pre *PCase
-	if class == "reset" || class == "zerostart" || class == "margin" || class == "ntlreset" {
+	if class == "reset" || class == "zerostart" || class == "margin" || class == "ntlreset" || class == "bighash" || class == "manyresets" {
 		pre = &PCase{Cfg: cc.Cfg, Stream: cc.S1, Ops: cc.H1}
 	}
 	// run A hands slices to Reset whose spare capacity holds garbage, run B
@@ -611,5 +782,5 @@ func init() {
 	core.Register(&c13prop{base{id: "C13", level: "exploration",
 		rule:        "reset clause: for all 7 parsers a used parser (random prior history H1 with several fills/Shrinks, small alphabets, long hash inputs and few hash bits so that stale table entries would verify against new data) and a new parser both execute Reset(x) (x nil or data on the copy/alias/huge-capacity paths, each parser with its own copy) followed by the same history H2; ALL observable results of H2 (n, err, blocks with nil == empty, Shrink values, ReadAt/ByteAt answers) are compared; twin clause: two new parsers, same calls; schedule clause: the whole check runs in a -race build, and 32 goroutines drive 32 distinct parser instances (long streams through 16-200 byte buffers, hundreds of Shrinks each) plus a decoder instance each, several rounds; every goroutine's results are compared with the sequential reference run and every race detector report is a violation; non-trivial iff H2 produced a block with a match; distinct = distinct concrete case",
 		assumptions: []string{"buffers <= 1017 bytes so that the read sizes offered to a reader do not depend on the capacity history of the buffer", "the race detector only sees the schedules that occurred"},
-		mandatory:   []string{"pairs_compared", "pairs_with_matches_after_reset", "pairs_reset_with_data", "pairs_reset_nil", "concurrent_rounds", "wrapped_pairs_compared", "wrapped_pairs_first_stream_end_2"}}})
+		mandatory:   []string{"pairs_compared", "pairs_with_matches_after_reset", "pairs_reset_with_data", "pairs_reset_nil", "concurrent_rounds", "wrapped_pairs_compared", "wrapped_pairs_first_stream_end_2", "parsers_reset_more_than_256_times", "lives_compared_with_planted_old_data", "pairs:bighash:HP"}}})
 }
